@@ -170,6 +170,8 @@ class World:
         self.raised: dict[str, BaseException] = {}  # block name -> exception object the body raised
         self.disposables: dict[str, list[Disposable]] = {}
         self.tasks: dict[str, asyncio.Task[Any]] = {}
+        self.task_owner: dict[str, str | None] = {}
+        self.exit_snapshot: dict[str, dict[str, bool]] = {}  # block -> {task spawned into it: done() at the instant the block was left}
         self.capture = LogCapture()
         self.uid = 10_000
         self.live: dict[str, tuple[int, set[str]]] = {}  # block name -> (task id, supplied types) while its body runs
@@ -277,6 +279,8 @@ async def run_steps(W: World, steps: list[dict[str, Any]], rng: random.Random | 
                 W.tasks[name] = ctx.spawn(child)
             else:
                 W.tasks[name] = asyncio.get_running_loop().create_task(child())
+            W.task_owner[name] = step.get("owner")
+            W.event("spawned", name, step.get("owner"))
         elif op == "join":
             for name in step["names"]:
                 t = W.tasks.get(name)
@@ -301,6 +305,17 @@ async def run_steps(W: World, steps: list[dict[str, Any]], rng: random.Random | 
                 await run_block(W, step, rng)
         elif op == "raise":
             raise make_exc(step["exc"], step.get("tag", "step"))
+        elif op == "fail":
+            W.event("child-fails", step.get("tag"))
+            raise ChildErr(step.get("tag", "child"))
+        elif op == "forever":
+            try:
+                await asyncio.get_running_loop().create_future()
+            except asyncio.CancelledError:
+                W.event("forever-cancelled", step.get("tag"))
+                raise
+        elif op == "mark":
+            W.event("mark", step.get("tag"))
         else:
             raise ValueError(f"unknown step {op}")
 
@@ -357,6 +372,7 @@ async def run_block(W: World, block: dict[str, Any], rng: random.Random | None) 
         elif name in W.block_stack_exiting:
             W.block_stack_exiting.remove(name)
         W.block_phase[name] = "exited"
+        W.exit_snapshot[name] = {tn: t.done() for tn, t in W.tasks.items() if W.task_owner.get(tn) == name}
         W.event("exit", name)
 
     if kind == "ascope":
